@@ -153,9 +153,13 @@ class Repo:
         repo = self
         count = 0
 
+        new_closures: set[str] = set()  # local functions of the function being processed that the reference tree does not have
+
         def new_helper(m: Module, call: ast.Call) -> bool:
             if not isinstance(call.func, ast.Name):
                 return False
+            if call.func.id in new_closures:
+                return True
             h = m.funcs.get(call.func.id)
             if h is None and call.func.id in m.imports:
                 obj = repo.lookup_dotted(m.imports[call.func.id])
@@ -209,6 +213,9 @@ class Repo:
         for m in self.modules.values():
             for node in ast.walk(m.tree):
                 if isinstance(node, (ast.FunctionDef, ast.AsyncFunctionDef)):
+                    new_closures.clear()
+                    new_closures.update(n.name for n in ast.walk(node) if isinstance(n, ast.FunctionDef) and n is not node and f"{m.relpath}:*.{n.name}" not in known
+                                        and not any(f"{m.relpath}:" in k and k.endswith(f".{n.name}") for k in ()))
                     node.body = process(m, node.body)
             ast.fix_missing_locations(m.tree)
         return count
